@@ -62,7 +62,7 @@ def make_batch(root, ids, seed=0, n_lines=2, decoder=None, lm_seed=None, ocr=Tru
     return root + '/config.ini'
 
 
-OPT = {'xml': 'xml', 'render': 'render', 'logits': 'logit', 'alto': 'alto', 'line': 'line'}
+OPT = {'xml': 'xml', 'render': 'render', 'logits': 'logit', 'alto': 'alto', 'line': 'line', 'lmdb': 'line'}     # a line path containing 'lmdb' selects the LMDB export of the crops
 
 
 def argv_for(root, out, kinds, skip=True, extra=()):
@@ -105,6 +105,15 @@ def snapshot(out):
     if not os.path.exists(out):
         return snap
     for d, _, fs in os.walk(out):
+        if 'data.mdb' in fs:
+            # an LMDB environment: compared by its records, not by the bytes of the B-tree file
+            import lmdb
+            env = lmdb.open(d, readonly=True, lock=False)
+            with env.begin() as txn:
+                for k, v in txn.cursor():
+                    snap[os.path.join(os.path.relpath(d, out), k.decode())] = hashlib.sha1(bytes(v)).hexdigest()[:16]
+            env.close()
+            continue
         for f in fs:
             p = os.path.join(d, f)
             rel = os.path.relpath(p, out)
